@@ -136,6 +136,18 @@ CLAIMED = {
              "operations themselves are the subject of C01-C18.",
         design="DESIGN §8 C19",
         technique="Lean 4 proof (decision logic stated outright) + plan-execution correspondence against the real CLI"),
+    "C09": dict(
+        text="Theorems over the Lean model of TimePoint.__init__/_check_bounds/TimeZone.__init__ (integral arguments): "
+             "soundness - whatever subset of keyword arguments is given, an accepted point is a real date-time of the "
+             "active mode (month 1..12, day within the month/year/week-year, weekday 1..7, hour <= 24 with 24 only as "
+             "24:00:00, minute/second < 60, zone parts in range and of one sign); completeness - every valid point's "
+             "fields are accepted and give exactly that point; two representations at once or a missing year are refused; "
+             "C09_exceptions decides by kernel evaluation that every raise site of the parsers, tables, dumper and "
+             "constructor path raises a class whose live MRO contains ValueError. PARTIAL: 'for arbitrary text: never "
+             "another exception type, never a hang' is observed on a mutation/splice/garbage stream through the three "
+             "parsers in 11 configurations (known findings F10 cost, F11 TypeError), not proved.",
+        design="DESIGN §8 C09",
+        technique="Lean 4 proof (acceptance iff validity; MRO table regenerated from the source) + constructor/text/garbage correspondence"),
     "C03": dict(
         text="Theorems over the Lean model: the six conversions are total on valid dates, produce valid dates and "
              "preserve the Spec day number (so all round trips are identities), for every year in Int and all four "
